@@ -545,6 +545,23 @@ fn structured() -> Vec<Spec> {
             }));
         }
     }
+    // register + port chunks repeated with the stored frame position going backwards and forwards
+    // (every SPCR performs a real port write, i.e. clocks the devices in the middle of the load)
+    for (c1, c2) in [(60000u32, 300u32), (300, 60000), (69000, 0), (40000, 39990)] {
+        szx_mut(&mut v, "z80r-spcr-repeated-cycles", move |s, _| {
+            let kz = s.find(b"Z80R").unwrap();
+            let ks = s.find(b"SPCR").unwrap();
+            let (mut z1, sp) = (s.chunks[kz].clone(), s.chunks[ks].clone());
+            let mut z2 = z1.clone();
+            z1.data[29..33].copy_from_slice(&c1.to_le_bytes());
+            z2.data[29..33].copy_from_slice(&c2.to_le_bytes());
+            s.chunks.retain(|c| c.id != *b"Z80R" && c.id != *b"SPCR");
+            s.chunks.insert(0, sp.clone());
+            s.chunks.insert(0, z2);
+            s.chunks.insert(0, sp);
+            s.chunks.insert(0, z1);
+        });
+    }
     for (id, _) in KNOWN_CHUNKS {
         let idc = *id;
         let trig = format!("dup-chunk:{}", String::from_utf8_lossy(id).trim_end_matches('\0'));
@@ -1030,6 +1047,19 @@ fn run_sub(case: &Case, is128: bool, ak: AK, variant: u64) -> Outcome {
     let deep = case.fmt == F::Tap && variant % 16 == 2 && ak == AK::Mem;
     MAX_REQ.store(0, Ordering::Relaxed);
     ARMED.store(true, Ordering::Relaxed);
+    // a host may load one snapshot right after another (no emulation in between, audio drained or
+    // not): every third sub-run first loads a valid file of the same kind into the same emulator
+    if matches!(case.fmt, F::Sna | F::Szx) && variant % 3 == 1 {
+        let mut r = Rng::new(variant ^ 0xA11);
+        let prior = base_of(case.fmt, &mut r);
+        let _ = catch(|| {
+            let a = crate::host::mem_asset(prior.clone());
+            let _ = if case.fmt == F::Sna { m.emu.load_snapshot(Snapshot::Sna(a)) } else { m.emu.load_snapshot(Snapshot::Szx(a)) };
+            if variant % 2 == 0 {
+                m.drain_audio();
+            }
+        });
+    }
     let r: Result<Result<(), String>, String> = catch(|| match case.fmt {
         F::Sna => m.emu.load_snapshot(Snapshot::Sna(mk_asset(bytes, ak, &ops))).map_err(|e| format!("{:?}", e)),
         F::Szx => m.emu.load_snapshot(Snapshot::Szx(mk_asset(bytes, ak, &ops))).map_err(|e| format!("{:?}", e)),
